@@ -202,90 +202,135 @@ def preload():
     import reactivex.testing  # noqa: F401
 
 
-def run_in_child(case, hard_cap=HARD_CAP_S, blocked_s=BLOCKED_S):
-    """Fork, run the scenario, collect its reports.  Returns (reports, verdict, diagnosis)
-    verdict in {'exited', 'blocked', 'timeout', 'died'}."""
+def run_in_children(cases, hard_cap=HARD_CAP_S, blocked_s=BLOCKED_S):
+    """Run the scenarios in forked children; yields (case, reports, verdict, diagnosis) per case,
+    verdict in {'exited', 'blocked', 'timeout'}.  One child works through the cases in order (fresh
+    scheduler per case); a child that hangs in a case is diagnosed and killed, and a new child
+    continues with the next case, so every verdict comes from a process that was alive and
+    responsive when the case began."""
     preload()
-    rfd, wfd = os.pipe()
-    tb = tempfile.NamedTemporaryFile(prefix="vf_c29_tb_", suffix=".txt", delete=False)
-    tb.close()
-    pid = os.fork()
-    if pid == 0:  # ---- child
-        code = 0
-        try:
-            os.close(rfd)
-            signal.signal(signal.SIGALRM, signal.SIG_DFL)
-            signal.setitimer(signal.ITIMER_REAL, 0.0)
-            fh = open(tb.name, "w")
-            faulthandler.register(signal.SIGUSR1, file=fh, all_threads=True)
-
-            def report(obj):
-                os.write(wfd, (json.dumps(obj) + "\n").encode())
-
-            scenario(case, report)
-        except BaseException as e:  # harness problem in the child
+    i = 0
+    while i < len(cases):
+        rfd, wfd = os.pipe()
+        tb = tempfile.NamedTemporaryFile(prefix="vf_c29_tb_", suffix=".txt", delete=False)
+        tb.close()
+        pid = os.fork()
+        if pid == 0:  # ---- child
+            code = 0
             try:
-                os.write(wfd, (json.dumps({"harness_error": repr(e)}) + "\n").encode())
-            except Exception:
-                pass
-            code = 3
-        finally:
-            os._exit(code)
-    # ---- parent
-    os.close(wfd)
-    buf = b""
-    t0 = time.time()
-    verdict = None
-    last_cpu, last_change = None, t0
-    while True:
-        r, _, _ = select.select([rfd], [], [], 0.05)
-        if r:
-            chunk = os.read(rfd, 65536)
-            if not chunk:
-                verdict = "exited"
+                os.close(rfd)
+                signal.signal(signal.SIGALRM, signal.SIG_DFL)
+                signal.setitimer(signal.ITIMER_REAL, 0.0)
+                fh = open(tb.name, "w")
+                faulthandler.register(signal.SIGUSR1, file=fh, all_threads=True)
+                for j in range(i, len(cases)):
+                    def report(obj, j=j):
+                        obj["case"] = j
+                        os.write(wfd, (json.dumps(obj) + "\n").encode())
+
+                    report({"begin": True})
+                    scenario(cases[j], report)
+                    report({"end": True})
+            except BaseException as e:  # harness problem in the child
+                try:
+                    os.write(wfd, (json.dumps({"harness_error": repr(e)}) + "\n").encode())
+                except Exception:
+                    pass
+                code = 3
+            finally:
+                os._exit(code)
+        # ---- parent
+        os.close(wfd)
+        buf = b""
+        cur = None  # index of the case in progress
+        reports: list = []
+        t_case = time.time()
+        verdict = None
+        last_cpu, last_change = None, t_case
+        finished_upto = i
+        while True:
+            r, _, _ = select.select([rfd], [], [], 0.25)
+            if r:
+                chunk = os.read(rfd, 65536)
+                if not chunk:
+                    verdict = "exited"
+                    break
+                buf += chunk
+                last_change = time.time()
+                while b"\n" in buf:
+                    line, buf = buf.split(b"\n", 1)
+                    obj = json.loads(line)
+                    if "harness_error" in obj:
+                        raise RuntimeError("child harness error: " + obj["harness_error"])
+                    if obj.get("begin"):
+                        cur, reports, t_case = obj["case"], [], time.time()
+                    elif obj.get("end"):
+                        try:
+                            yield cases[cur], reports, "exited", ""
+                        except GeneratorExit:  # consumer stopped (deadline): never leave a child behind
+                            try:
+                                os.kill(pid, signal.SIGKILL)
+                                os.waitpid(pid, 0)
+                            except (ProcessLookupError, ChildProcessError):
+                                pass
+                            os.close(rfd)
+                            try:
+                                os.unlink(tb.name)
+                            except OSError:
+                                pass
+                            raise
+                        finished_upto = cur + 1
+                        cur = None
+                    else:
+                        reports.append(obj)
+                continue
+            now = time.time()
+            state, cpu = _proc_stat(pid)
+            if state is None or state in ("Z", "X"):
+                continue  # exiting: EOF follows
+            if cpu != last_cpu or state != "S":
+                last_cpu, last_change = cpu, now
+            elif now - last_change >= blocked_s:
+                verdict = "blocked"
                 break
-            buf += chunk
-            last_change = time.time()
-            continue
-        now = time.time()
-        state, cpu = _proc_stat(pid)
-        if state is None or state in ("Z", "X"):
-            continue  # exiting: EOF follows
-        if cpu != last_cpu or state != "S":
-            last_cpu, last_change = cpu, now
-        elif now - last_change >= blocked_s:
-            verdict = "blocked"
-            break
-        if now - t0 >= hard_cap:
-            verdict = "timeout"
-            break
-    diagnosis = ""
-    if verdict in ("blocked", "timeout"):
+            if now - t_case >= hard_cap:
+                verdict = "timeout"
+                break
+        diagnosis = ""
+        if verdict in ("blocked", "timeout"):
+            try:
+                os.kill(pid, signal.SIGUSR1)  # faulthandler dumps the Python stack of the stuck child
+                time.sleep(0.2)
+                with open(tb.name) as fh:
+                    diagnosis = fh.read()[-3000:]
+            except Exception as e:
+                diagnosis = f"(no stack: {e!r})"
+            try:
+                os.kill(pid, signal.SIGKILL)
+            except ProcessLookupError:
+                pass
+        os.close(rfd)
+        status = 0
         try:
-            os.kill(pid, signal.SIGUSR1)  # faulthandler dumps the Python stack of the stuck child
-            time.sleep(0.15)
-            with open(tb.name) as fh:
-                diagnosis = fh.read()[-3000:]
-        except Exception as e:
-            diagnosis = f"(no stack: {e!r})"
-        try:
-            os.kill(pid, signal.SIGKILL)
-        except ProcessLookupError:
+            _, status = os.waitpid(pid, 0)
+        except ChildProcessError:
             pass
-    os.close(rfd)
-    try:
-        _, status = os.waitpid(pid, 0)
-        if verdict == "exited" and status != 0:
-            verdict = "died"
-            diagnosis = f"child exit status {status}"
-    except ChildProcessError:
-        pass
-    try:
-        os.unlink(tb.name)
-    except OSError:
-        pass
-    reports = [json.loads(l) for l in buf.decode().splitlines() if l.strip()]
-    return reports, verdict, diagnosis
+        try:
+            os.unlink(tb.name)
+        except OSError:
+            pass
+        if verdict == "exited":
+            if status != 0 or finished_upto != len(cases):
+                raise RuntimeError(f"child died (status {status}) after case {finished_upto}")
+            return
+        if cur is None:
+            raise RuntimeError("child stuck outside a case: " + diagnosis)
+        yield cases[cur], reports, verdict, diagnosis
+        i = cur + 1
+
+
+def run_in_child(case):
+    return next((r, v, d) for (_, r, v, d) in run_in_children([case]))
 
 
 # ------------------------------------------------------------------ oracle
@@ -342,11 +387,11 @@ def judge(case, reports, verdict, diagnosis):
 
 
 def shard(part: core.Part, shard_i, nshards, tier, seed, deadline):
-    for case in core.shard_iter(all_cases(tier, seed), shard_i, nshards):
+    mine = list(core.shard_iter(all_cases(tier, seed), shard_i, nshards))
+    for case, reports, verdict, diagnosis in run_in_children(mine):
         if time.time() > deadline:
             part.complete = False
             return
-        reports, verdict, diagnosis = run_in_child(case)
         problems, outcome = judge(case, reports, verdict, diagnosis)
         total, per_instant = expected_invocations(case["n"], case["shape"])
         key = (case["clock"], case["n"], case["shape"], case["call"])
